@@ -21,16 +21,25 @@
                                so `[]` is a single empty request instead of a rejected empty batch
     opsMultipartTypePanics     an `operations` part whose own content type is `multipart/*` hits
                                `assert_ne!` in `receive_batch_body_no_multipart`
+    getLossyUtf8               `parse_query_string` percent-decodes through `form_urlencoded::parse`,
+                               which ends in `String::from_utf8_lossy`: bytes that are not UTF-8 become
+                               U+FFFD instead of being refused
+
+  Byte layer (end of the file): `serde_json::from_slice` validates UTF-8 strictly (`str::from_utf8`
+  on every string, any other byte ≥ 0x80 is a syntax error; no byte order mark is skipped), and
+  `receive_batch_multipart` hands the raw `Field::bytes()` of the `operations` / `map` part to it —
+  the part's `charset` parameter and `Content-Transfer-Encoding` header are never looked at.
 -/
 import AGV.Spec.Http
 
 namespace AGV.Model.Http
-open AGV.Spec.Http (Str J Members Req BatchReq Err Part BatchResp)
+open AGV.Spec.Http (Str J Members Req BatchReq Err Part BatchResp Bytes BPart Utf8Step utf8Step utf8Decode)
 
 structure Defects where
   getOperationNameSnakeCase : Bool := false
   requestAcceptsArray : Bool := false
   opsMultipartTypePanics : Bool := false
+  getLossyUtf8 : Bool := false
   deriving Repr, DecidableEq
 
 /-- the wire names a decoder reads for the four members -/
@@ -202,5 +211,99 @@ def encodeGet (K : Keys) (print : J → Str) (r : Req) : List (Str × Str) :=
   [(K.query, r.query)] ++
   (match r.operationName with | some o => [(K.operationName, o)] | none => []) ++
   [(K.variables, print (.obj r.variables)), (K.extensions, print (.obj r.extensions))]
+
+-- ------------------------------------------------------------------ the byte layer
+
+set_option linter.unusedVariables false in
+/-- `String::from_utf8_lossy` (`Utf8Chunks`): every maximal ill-formed prefix becomes one U+FFFD -/
+def utf8DecodeLossyN : List Nat → List Char
+  | [] => []
+  | b0 :: tl =>
+    match h : utf8Step b0 tl with
+    | .char n rest => Char.ofNat n :: utf8DecodeLossyN rest
+    | .bad rest => Char.ofNat 0xFFFD :: utf8DecodeLossyN rest
+termination_by l => l.length
+decreasing_by
+  all_goals
+    have := AGV.Spec.Http.utf8Step_rest_le b0 tl
+    rw [h] at this
+    simp [Utf8Step.rest] at this
+    simp; omega
+
+def utf8DecodeLossy (bs : Bytes) : List Char := utf8DecodeLossyN (bs.map UInt8.toNat)
+
+/-- `serde_json::from_slice::<BatchRequest>(&data)` on the bytes of a body, a batch, or the
+    `operations` part -/
+def decodeBodyBytes (D : Defects) (K : Keys) (parse : Str → Option J) (bs : Bytes) : Except Err BatchReq :=
+  match utf8Decode bs with
+  | none => .error .invalidRequest
+  | some t => match parse t with
+    | none => .error .invalidRequest
+    | some j => decodeBatch D K j
+
+/-- what `form_urlencoded::parse` makes of the percent-decoded bytes of a key or value -/
+def getText (D : Defects) (bs : Bytes) : Option Str :=
+  if D.getLossyUtf8 then some (utf8DecodeLossy bs) else utf8Decode bs
+
+def getPair (D : Defects) (p : Bytes × Bytes) : Option (Str × Str) :=
+  match getText D p.1, getText D p.2 with
+  | some k, some v => some (k, v)
+  | _, _ => none
+
+/-- `parse_query_string` on the percent-decoded pairs, as bytes -/
+def decodeGetBytes (D : Defects) (K : Keys) (parse : Str → Option J) (ps : List (Bytes × Bytes)) : Except Err Req :=
+  match traverse (getPair D) ps with
+  | none => .error .queryString
+  | some tps => decodeGet K parse tps
+
+/-- `serde_json::from_slice::<HashMap<String, Vec<String>>>` on the tree -/
+def filesMap : J → Option (List (Str × List Str))
+  | .obj kvs => traverse (fun (p : Str × J) => match p.2 with
+      | .arr xs => match traverse (fun (x : J) => match x with | .str s => some s | _ => none) xs with
+        | some ss => some (p.1, ss)
+        | none => none
+      | _ => none) kvs
+  | _ => none
+
+/-- the loop of `receive_batch_multipart` on the raw `Field::bytes()` of the parts (no files:
+    whatever the map names is missing) -/
+def decodeMultipartBytesAux (D : Defects) (K : Keys) (parse : Str → Option J) :
+    List BPart → Option BatchReq → Option (List (Str × List Str)) → Except Err BatchReq
+  | [], none, _ => .error .missingOperations
+  | [], some _, none => .error .missingMap
+  | [], some r, some m => if m.isEmpty then .ok r else .error .missingFiles
+  | .ops ct bs :: rest, _, m =>
+    if AGV.Spec.Http.isMultipartType ct then
+      (if D.opsMultipartTypePanics then .error .panic else .error .invalidRequest)
+    else match decodeBodyBytes D K parse bs with
+      | .ok r => decodeMultipartBytesAux D K parse rest (some r) m
+      | .error e => .error e
+  | .map bs :: rest, req, _ =>
+    match utf8Decode bs with
+    | none => .error .invalidFilesMap
+    | some t => match parse t with
+      | none => .error .invalidFilesMap
+      | some j => match filesMap j with
+        | none => .error .invalidFilesMap
+        | some m => decodeMultipartBytesAux D K parse rest req (some m)
+  | .other :: rest, req, m => decodeMultipartBytesAux D K parse rest req m
+
+def decodeMultipartBytes (D : Defects) (K : Keys) (parse : Str → Option J) (parts : List BPart) : Except Err BatchReq :=
+  decodeMultipartBytesAux D K parse parts none none
+
+/-- NOT the code: the variant that reads the `operations` part as text (multer's `Field::text()`
+    for a part without charset label: a UTF-8 byte order mark is dropped, ill-formed bytes become
+    U+FFFD) and parses that.  Kept to show what the byte-level agreement theorem excludes. -/
+def decodeBodyBytesAsText (D : Defects) (K : Keys) (parse : Str → Option J) (bs : Bytes) : Except Err BatchReq :=
+  let bs' := match bs with
+    | 0xEF :: 0xBB :: 0xBF :: r => r
+    | _ => bs
+  match parse (utf8DecodeLossy bs') with
+  | none => .error .invalidRequest
+  | some j => decodeBatch D K j
+
+/-- the bytes a client sends for a text -/
+def encodeGetBytes (K : Keys) (print : J → Str) (r : Req) : List (Bytes × Bytes) :=
+  (encodeGet K print r).map (fun p => (AGV.Spec.Http.utf8Encode p.1, AGV.Spec.Http.utf8Encode p.2))
 
 end AGV.Model.Http
